@@ -1209,3 +1209,75 @@ Proof.
   - cbn. repeat constructor; cbn; intuition discriminate.
   - intros o [<-|[<-|[]]]; cbn; repeat split; try reflexivity; discriminate.
 Qed.
+
+(* ------------------------------------------------------------------ the writer's configuration (zstd level) *)
+Lemma digits_bound_mono l : forall acc n, digits l acc = Some n -> acc <= n.
+Proof.
+  induction l as [|b l IH]; intros acc n H; cbn [digits] in H.
+  - inversion H. lia.
+  - destruct (N.leb 48 b && N.leb b 57); [|discriminate]. apply IH in H. lia.
+Qed.
+
+(* whatever the variable holds, the level is an i32 *)
+Lemma zstd_level_is_i32 env :
+  let l := zstd_level env in
+  (fst l = false -> snd l <= 2147483647) /\ (fst l = true -> 0 < snd l <= 2147483648).
+Proof.
+  unfold zstd_level. destruct env as [v|]; [|cbn; split; [lia|discriminate]].
+  destruct (parse_i32 v) as [l|] eqn:E; [|cbn; split; [lia|discriminate]].
+  unfold parse_i32 in E.
+  assert (G : forall r, match digits r 0 with
+                        | Some n => if N.leb n 2147483647 then Some (false, n) else None
+                        | None => None end = Some l ->
+              (fst l = false -> snd l <= 2147483647) /\ (fst l = true -> 0 < snd l <= 2147483648)).
+  { intros r H. destruct (digits r 0) as [n|]; [|discriminate].
+    destruct (N.leb_spec n 2147483647); [|discriminate]. inversion H; subst. cbn. split; [auto|discriminate]. }
+  destruct v as [|c r]; [discriminate|].
+  destruct (N.eq_dec c 45) as [->|H45].
+  - destruct r as [|c2 r2]; [discriminate|].
+    destruct (digits (c2 :: r2) 0) as [n|]; [|discriminate].
+    destruct (N.leb_spec n 2147483648); [|discriminate]. inversion E; subst. cbn [fst snd].
+    destruct (N.eqb_spec n 0); cbn; split; intros; try discriminate; lia.
+  - destruct (N.eq_dec c 43) as [->|H43].
+    + destruct r as [|c2 r2]; [discriminate|]. now apply (G (c2 :: r2)).
+    + apply (G (c :: r)). revert E.
+      destruct c as [|p]; [auto|].
+      repeat (destruct p as [p|p|]; try (intro E; exact E); try congruence).
+Qed.
+
+Lemma zstd_level_unset : zstd_level None = DEFAULT_LEVEL.
+Proof. reflexivity. Qed.
+
+(* "22", "-5", "+7", "007", "-0", "-2147483648" parse; "", "-", "+", " 7", "7 ", "7.0", "0x7", "2147483648", "abc" do not *)
+Lemma zstd_level_examples :
+  zstd_level (Some [50; 50]) = (false, 22) /\ zstd_level (Some [45; 53]) = (true, 5)
+  /\ zstd_level (Some [43; 55]) = (false, 7) /\ zstd_level (Some [48; 48; 55]) = (false, 7)
+  /\ zstd_level (Some [45; 48]) = (false, 0)
+  /\ zstd_level (Some [45; 50; 49; 52; 55; 52; 56; 51; 54; 52; 56]) = (true, 2147483648)
+  /\ zstd_level (Some []) = DEFAULT_LEVEL /\ zstd_level (Some [45]) = DEFAULT_LEVEL
+  /\ zstd_level (Some [43]) = DEFAULT_LEVEL /\ zstd_level (Some [32; 55]) = DEFAULT_LEVEL
+  /\ zstd_level (Some [55; 32]) = DEFAULT_LEVEL /\ zstd_level (Some [55; 46; 48]) = DEFAULT_LEVEL
+  /\ zstd_level (Some [48; 120; 55]) = DEFAULT_LEVEL
+  /\ zstd_level (Some [50; 49; 52; 55; 52; 56; 51; 54; 52; 56]) = DEFAULT_LEVEL
+  /\ zstd_level (Some [97; 98; 99]) = DEFAULT_LEVEL /\ zstd_level (Some [45; 45; 53]) = DEFAULT_LEVEL.
+Proof. vm_compute. repeat split. Qed.
+
+Section Levels.
+  Variable compress_at : level -> list N -> list N.
+  Variable decompress : list N -> option (list N).
+  Hypothesis zstd_roundtrip_at : forall l x, decompress (compress_at l x) = Some x.
+
+  (* the reader has no configuration: what the writer packed at ANY level — whatever SCCACHE_CACHE_ZSTD_LEVEL holds —
+     unpacks to the original contents, modes, stdout and stderr *)
+  Theorem roundtrip_every_level env objs so se reqs :
+    let ms := cache_members_cfg compress_at env objs so se in
+    let bs := cache_write_cfg compress_at env objs so se in
+    objs_ok objs -> writable ms = true -> no_z64_locator bs = true ->
+    map fst reqs = map obj_name objs ->
+    unpack decompress bs reqs
+    = UHit so se (map (fun o => Some (Some (perm_of (obj_mode o)), obj_content o)) objs).
+  Proof.
+    intros ms bs Hok Hw Hz Hreqs.
+    apply (roundtrip_unpack (compress_at (zstd_level env)) decompress); auto.
+  Qed.
+End Levels.
